@@ -90,6 +90,8 @@ def regenerate():
             if not os.path.exists(b) or open(a, "rb").read() != open(b, "rb").read():
                 shutil.copyfile(a, b)
     shutil.rmtree(tmp, ignore_errors=True)
+    from verifcore import genmain
+    genmain.generate(LEAN)
     return ok, "\n".join(msgs)
 
 
@@ -150,6 +152,11 @@ def build_harness(name):
         os.remove(out)
     gosum = os.path.join(VERIF, "go", "go.sum")
     shutil.copyfile(os.path.join(REPO, "go.sum"), gosum)
+    gomod = os.path.join(VERIF, "go", "go.mod")
+    txt = open(gomod).read()
+    new = re.sub(r"replace github.com/semafind/semadb => \S+", "replace github.com/semafind/semadb => " + REPO, txt)
+    if new != txt:
+        open(gomod, "w").write(new)
     rc, o, dt = sh(["go", "build", "-tags", "verif", "-o", out, "./cmd/" + name], cwd=os.path.join(VERIF, "go"), env=GOENV)
     return rc == 0, o, out
 
